@@ -1476,7 +1476,17 @@ func (m *Mon) C11(n *node.Node, l *node.Leg) {
 				in += 64
 			}
 		}
-		bound := uint64(256<<10) + 96*uint64(in)
+		bound := uint64(128<<10) + 128*uint64(in)
+		switch {
+		case l.AllocBytes <= 4<<10:
+			m.R.Cover("C11/alloc<=4KiB")
+		case l.AllocBytes <= 16<<10:
+			m.R.Cover("C11/alloc<=16KiB")
+		case l.AllocBytes <= 64<<10:
+			m.R.Cover("C11/alloc<=64KiB")
+		default:
+			m.R.Cover("C11/alloc>64KiB")
+		}
 		if l.AllocBytes > bound {
 			m.viol("C11", "allocation:"+c.Func+":"+sideName(l), fmt.Sprintf("the call allocated %d bytes for %d bytes of arguments (bound %d)", l.AllocBytes, in, bound), l)
 		}
